@@ -24,11 +24,34 @@ log "builds, unit tests pass with the patch"
 
 # demo: rewrite the agent's worktree path to ours
 sed "s#$ORIGWT#$WT#g" "$SRC/demo.cpp" > "$WT/demo.cpp"
-CMD=$(grep -E '^\s*g\+\+' "$SRC/README.txt" | head -1 | sed 's/&&.*$//' | sed "s#$ORIGWT#$WT#g")
+CMD=$(python3 - "$SRC/README.txt" "$ORIGWT" "$WT" <<'PYEOF'
+import re, sys
+lines = open(sys.argv[1]).read().split("\n")
+cmd = None
+for i, l in enumerate(lines):
+    t = l.strip().lstrip("$ ").strip()
+    if t.startswith("g++"):
+        parts = []
+        j = i
+        while True:
+            t = lines[j].strip().lstrip("$ ").strip() if j == i else lines[j].strip()
+            if t.endswith("\\"):
+                parts.append(t[:-1].strip()); j += 1
+            else:
+                parts.append(t); break
+        cmd = " ".join(parts)
+        break
+if not cmd:
+    sys.exit(0)
+cmd = cmd.split("&&")[0].strip()
+cmd = cmd.replace(sys.argv[2], sys.argv[3])
+cmd = re.sub(r"\S*demo[^ /]*\.cpp", sys.argv[3] + "/demo.cpp", cmd)
+cmd = re.sub(r"-o\s+\S+", "", cmd) + " -o " + sys.argv[3] + "/demo_bin"
+cmd = cmd.replace("<k>", "1").replace("/N/", "/1/")
+print(cmd)
+PYEOF
+)
 if [ -z "$CMD" ]; then log "no g++ command in README"; exit 3; fi
-# make the command compile our copy of the demo and write to our dir
-CMD=$(echo "$CMD" | sed -E "s#[^ ]*demo\.cpp#$WT/demo.cpp#; s#-o +[^ ]+#-o $WT/demo_bin#")
-echo "$CMD" | grep -q -- "-o " || CMD="$CMD -o $WT/demo_bin"
 ( cd "$WT" && eval "$CMD" ) >"$WT/demo_build.log" 2>&1 || { log "demo does not compile (patched)"; tail "$WT/demo_build.log"; exit 3; }
 "$WT/demo_bin" >"$WT/demo_patched.log" 2>&1; RC1=$?
 git -C "$WT" checkout -- .
